@@ -42,4 +42,64 @@ def obligations(tier, seed):
 
             obs.append(Ob(f"C07/regenerate[{sn}]/{nm}", f, (gfi.KEY, jax.random.key(1), P.args, P.example_vals()), assume=lambda k, k2, a, v, A=A: A(a, v),
                           note="unselected sites unchanged; weight == reference newscore-oldscore; empty selection => same trace, weight 0"))
+    # ---- "selected choices are redrawn from their prior given the CURRENT values of their parents": every leaf of the new trace
+    # is either its old value or the leaf sampler applied to the reference parameters at the NEW trace's values, under a key
+    # of the edit (re-keying as in C04)
+    from verif.props.c04 import GJ, key_subterms
+
+    for nm in names:
+        P = cat[nm]()
+        if "regenerate" not in P.supports or P.kind == "dist":
+            continue
+        A = gfi.base_assume(P, in_range=False)
+        for sn, sel in (("all", S.all()),) + tuple((str(s_.static_addr), S.at[s_.static_addr]) for s_ in P.sites[:1] if s_.static_addr):
+            def fd(key, key2, args, vals, kfree, P=P, sel=sel):
+                tr, _ = P.gf.importance(key, P.chm(vals), args)
+                tr2, w, rd, bwd = Regenerate(sel).edit(key2, tr, Diff.no_change(args))
+                newvals = gfi.trace_vals(P, tr2)
+                with PG.record_leaves() as rec_new:
+                    P.ref(args, newvals)
+                with PG.record_leaves() as rec_old:
+                    P.ref(args, vals)
+                news, samples, olds = [], [], []
+                for j, ((dist, params, v, g), (_, _, vo, _)) in enumerate(zip(rec_new, rec_old)):
+                    smp = GJ[dist].simulate(jax.random.fold_in(kfree, j), tuple(params)).get_retval()
+                    z = jnp.zeros_like(v)
+                    news.append(jnp.where(g, v, z)); samples.append(jnp.where(g, smp, z)); olds.append(jnp.where(g, vo, z))
+                return (news, olds), (samples, olds)
+
+            def custom(interp, sym_args, outs, out_shape):
+                import numpy as np
+
+                n = len(outs) // 4
+                news, olds, samples = outs[:n], outs[n:2 * n], outs[2 * n:3 * n]
+                kroot = sym_args[4][()]
+                real = [d for d in interp.draws if str(kroot) not in str(d.key)]
+                cands = {}
+                for d in real:
+                    key_subterms(d.key, cands)
+                cands = list(cands.values())
+                diffs = []
+                interp.symbolic_leaves = n
+                for j in range(n):
+                    kf = J.Key.fold_in(kroot, z3.IntVal(j))
+                    for idx in np.ndindex(*news[j].shape):
+                        x, y, o = J.lower(news[j][idx]), J.lower(samples[j][idx]), J.lower(olds[j][idx])
+                        kind = "b" if (J.is_sym(x) and x.sort() == z3.BoolSort()) or isinstance(x, bool) else ("i" if (J.is_sym(x) and x.sort() == z3.IntSort()) or (isinstance(x, int) and not isinstance(x, bool)) else "f")
+                        xt, yt, ot = J.zterm(x, kind), J.zterm(y, kind), J.zterm(o, kind)
+                        alts = [xt == ot] + [xt == z3.substitute(yt, (kf, c)) for c in cands]
+                        diffs.append((f"leaf {j}{list(idx)}: new value is neither the old value nor the leaf sampler on the reference parameters at the new trace's values", z3.Not(z3.Or(*alts))))
+                return diffs
+
+            def replay(args, P=P, sel=sel):
+                key, key2, a, vals, _ = args
+                tr, _ = P.gf.importance(key, P.chm(vals), a)
+                tr2, w, rd, bwd = Regenerate(sel).edit(key2, tr, Diff.no_change(a))
+                sc, rv = P.gf.assess(tr2.get_choices(), a)
+                bad = not bool(jnp.allclose(sc, tr2.get_score(), atol=1e-4)) or not bool(jnp.allclose(w, tr2.get_score() - tr.get_score(), atol=1e-4))
+                return bad, f"new trace score {tr2.get_score()} vs assess {sc}; weight {w} vs score change {tr2.get_score() - tr.get_score()}"
+
+            obs.append(Ob(f"C07/redrawn-from-current-parents[{sn}]/{nm}", fd, (gfi.KEY, jax.random.key(1), P.args, P.example_vals(), jax.random.key(7)), assume=lambda k, k2, a, v, kf, A=A: A(a, v),
+                          custom=custom, replay=replay, selfcheck=False, timeout_s=60,
+                          note="every leaf of the regenerated trace is its old value or the leaf sampler applied to the reference parameters computed from the NEW trace's parent values (re-keyed draw atoms)"))
     return obs
